@@ -108,7 +108,7 @@ def ctl_corpus(tier):
     out.append(('code top of memory', 6, 'c {0}', 'top', 65530))
     out.append(('code top of memory base h', 6, 'c {0}\nC {0},h6', 'top', 65530))
     out.append(('code top of memory jr', 4, 'c {0}', 'topjr', 65532))
-    out.append(('code then data', 9, 'c {0}\nC {0},2\nB {2},3,c\nW {5},2\nT {7},2\ni {9}', 'ld9'))
+    out.append(('code then data', 9, 'c {0}\nC {0},2\nB {2},3,c3\nW {5},2\nT {7},2\ni {9}', 'ld9'))
     return out
 
 
